@@ -17,6 +17,8 @@ Inductive case :=
         (p : nat)                         (* tracker (of group g) of the parent transition *)
         (fe : fee) (g : bool) (ms bts maxB maxC : Z)
         (pool : list pelem)               (* the pool in iteration order *)
+        (perr : list N)                   (* class of e.err per element BEFORE the call (elements that
+                                             stayed in the pool after an earlier Candidate call) *)
         (bal : list (N * Z))              (* balances of the parent's world state *)
         (sel : list N)                    (* observed: ids returned by Candidate, in order *)
         (errs : list N)                   (* observed: class of e.err per element after the call *)
@@ -65,6 +67,24 @@ Definition err_of (v : verdict) : N :=
   | _ => cOk
   end.
 
+(* e.err is sticky: Expired / PreValidate write it only when it is nil,
+   AlreadyProcessed overwrites, nothing clears it *)
+Definition err_after (prior : N) (v : verdict) : N :=
+  match v with
+  | VHas => cState
+  | VExpired | VPre _ _ => if (prior =? cOk)%N then err_of v else prior
+  | _ => prior
+  end.
+
+Fixpoint errs_after (perr : list N) (vs : list verdict) : list N :=
+  match vs with
+  | [] => []
+  | v :: r => match perr with
+              | [] => err_after cOk v :: errs_after [] r
+              | q :: perr' => err_after q v :: errs_after perr' r
+              end
+  end.
+
 Definition removed_of (v : verdict) : bool :=
   match v with
   | VExpired | VHas => true
@@ -74,14 +94,14 @@ Definition removed_of (v : verdict) : bool :=
 
 Definition check (c : case) : bool :=
   match c with
-  | CCand h sn p fe g ms bts maxB maxC pool bal sel errs removed verdict =>
+  | CCand h sn p fe g ms bts maxB maxC pool perr bal sel errs removed verdict =>
       let st := run init h in
       let b := bal_of bal in
       let vs := cand_verdicts (s_mgr st) fe g ms bts maxB maxC pool b in
       let chosen := selected pool vs in
       snap_ok st sn
       && list_eqb N.eqb (map x_id chosen) sel
-      && list_eqb N.eqb (map err_of vs) errs
+      && list_eqb N.eqb (errs_after perr vs) errs
       && match removed with
          | None => true
          | Some r => list_eqb Bool.eqb (map removed_of vs) r
